@@ -63,7 +63,8 @@ def frames_of(case):
         for k, f in enumerate(v):
             animals = [Animal(tuple(a["centroid"]), [None if p is None else tuple(p) for p in a["pts"]])
                        for a in f["animals"]]
-            frs.append(FrameSpec(code=code, H=f["H"], W=f["W"], animals=animals, video=vi, frame_idx=k))
+            frs.append(FrameSpec(code=code, H=f["H"], W=f["W"], animals=animals, video=vi, frame_idx=k,
+                                 undershoot=float(f.get("undershoot", 0.0))))
             code += 7
         vids.append(frs)
     return vids
@@ -244,6 +245,9 @@ def gen_topdown_focus(rng, refine=None):
 
 
 # ------------------------------------------------------------------ implementation drivers
+LAST = {}   # side channel of the last impl_* call with mode-dependent stub layers: modes seen, stats moved
+
+
 def impl_single(case, provider, vids):
     import sleap_io  # noqa
     flat = [f for v in vids for f in v]
@@ -252,8 +256,21 @@ def impl_single(case, provider, vids):
                                       order=case.get("order"))
     p, net = stubs.build_single(scene, labels.skeletons, scale=case["scale"], os_=case["os"],
                                 max_stride=case["ms"], max_hw=tuple(case["max_hw"]),
-                                batch_size=case["batch"], refinement=case["refine"], threshold=THR)
+                                batch_size=case["batch"], refinement=case["refine"], threshold=THR,
+                                mode_layers=bool(case.get("mode_layers")))
+    before = None
+    if case.get("mode_layers"):
+        # build the wrapper first, then the call history on the inner network, then predict
+        p._initialize_inference_model()
+        net.apply_history(case.get("history", "fresh"))
+        before = [net.stats()]
     out = stubs.run_predict(p, provider, labels if provider == "LabelsReader" else svids[0])
+    LAST.clear()
+    if before is not None:
+        after = [net.stats()]
+        LAST.update({"modes": list(net.mode_log),
+                     "stats_changed": any(not (a[0].equal(b[0]) and a[1].equal(b[1]) and a[2] == b[2])
+                                          for a, b in zip(before, after))})
     rows = []
     for di, o in enumerate(out):
         n = len(o["frame_idx"])
@@ -278,8 +295,19 @@ def impl_topdown(case, provider, vids):
         scene, labels.skeletons, sc=case["sc"], os_c=case["os_c"], ms_c=case["ms_c"], si=case["si"],
         os_i=case["os_i"], ms_i=case["ms_i"], crop_hw=case["crop_hw"], max_hw=tuple(case["max_hw"]),
         batch_size=case["batch"], refinement=case["refine"], max_instances=case.get("max_instances"),
-        threshold=THR, is_rgb=True)
+        threshold=THR, is_rgb=True, mode_layers=bool(case.get("mode_layers")))
+    before = None
+    if case.get("mode_layers"):
+        cnet.apply_history(case.get("history", "fresh"))
+        inet.apply_history(case.get("history", "fresh"))
+        before = [cnet.stats(), inet.stats()]
     out = stubs.run_predict(p, provider, labels if provider == "LabelsReader" else svids[0])
+    LAST.clear()
+    if before is not None:
+        after = [cnet.stats(), inet.stats()]
+        LAST.update({"modes": list(cnet.mode_log) + list(inet.mode_log),
+                     "stats_changed": any(not (a[0].equal(b[0]) and a[1].equal(b[1]) and a[2] == b[2])
+                                          for a, b in zip(before, after))})
     rows = []
     for gi, o in enumerate(out):
         n = len(o["frame_idx"])
